@@ -10,6 +10,7 @@ import (
 	"encoding/binary"
 	"fmt"
 	"sort"
+	"strings"
 	"sync"
 	"sync/atomic"
 	"testing"
@@ -135,6 +136,27 @@ func (e *esrvEnv) query1(index, pql string) (interface{}, error) {
 		return nil, fmt.Errorf("harness: %d results for single call %q", len(res), pql)
 	}
 	return res[0], nil
+}
+
+// queryBatch runs several calls in ONE request (the PQL parser allocates a
+// large buffer per request, so batching read-only calls is several times
+// faster). If the request fails, every call is retried alone so that the error
+// is attributed to the call that causes it.
+func (e *esrvEnv) queryBatch(index string, pqls []string) ([]interface{}, []error) {
+	out := make([]interface{}, len(pqls))
+	errs := make([]error, len(pqls))
+	if len(pqls) == 0 {
+		return out, errs
+	}
+	res, err := e.query(index, strings.Join(pqls, " "))
+	if err == nil && len(res) == len(pqls) {
+		copy(out, res)
+		return out, errs
+	}
+	for i, q := range pqls {
+		out[i], errs[i] = e.query1(index, q)
+	}
+	return out, errs
 }
 
 // owners returns the commands that own a shard of an index.
